@@ -27,13 +27,13 @@ def cases(tier, seed):
     nets = gen.corpus() + [gen.draw(rng, cl, nmax) for _ in range(count)] + [gen.model_net(f) for f in gen.models_up_to(9 if tier == "quick" else 12)]
     out = []
     for n in nets:
-        out.append({"net": n, "cls": n["cls"], "mode": rng.choice(["full", "full", "partial", "root"]), "order": rng.choice(ORDERS), "rs": rng.randrange(1 << 30)})
+        out.append({"net": n, "cls": n["cls"], "mode": rng.choice(["full", "full", "partial", "root", "stubfirst"]), "order": rng.choice(ORDERS), "rs": rng.randrange(1 << 30)})
     return out
 
 
 def gate(agg):
     c = agg["cnt"]
-    need = ["sets_compared", "complex_sets_compared", "fixed_point_sets", "reduced_node_sets", "fallback_direct", "fallback_via_seeds", "stub_nodes", "order:reclaim"]
+    need = ["sets_compared", "complex_sets_compared", "fixed_point_sets", "reduced_node_sets", "fallback_direct", "fallback_via_seeds", "stub_nodes", "order:reclaim", "sets_on_stub_before_expansion"]
     return [f"monitor counter {k} is zero" for k in need if c.get(k, 0) == 0]
 
 
@@ -53,6 +53,14 @@ def run_case(case):
 
     def build(cfg=None):
         sd = bb.make_sd(net, cfg)
+        if case["mode"] == "stubfirst":
+            # sets requested while the root is an unexpanded stub, then the diagram is expanded
+            try:
+                W(lambda: sd.node_attractor_sets(0, compute=True))
+                res.c("sets_on_stub_before_expansion")
+            except RuntimeError:
+                pass
+            W(lambda: sd.expand_bfs())
         if case["mode"] == "full":
             W(lambda: sd.expand_bfs())
         elif case["mode"] == "partial":
